@@ -17,6 +17,7 @@ func init() {
 			a.nilDispatch("U.nil")
 			a.boundsTable("U.bounds")
 			a.allocSizes("U.alloc")
+			a.closedBigOps("U.bigint-ops")
 			a.narrowings("U.narrow", false)
 			a.panicsAndAsserts("U.panic")
 			a.sexpDiscipline("S.sexp")
@@ -245,6 +246,9 @@ func (a *An) boundsTable(rule string) {
 				ok = false
 			}
 		}
+		if a.boundsFilter != nil && !a.boundsFilter(s.Func) {
+			continue
+		}
 		if !ok {
 			a.R.Viol(rule, "site|"+okey, "every bounds check the compiler cannot discharge is a reviewed one", pos,
 				"new undischarged "+s.Kind+" in "+s.Func+" ("+s.Expr+"): the compiler can no longer prove this index/slice in range — typically a length test was removed or weakened; on attacker-controlled data this is a crash")
@@ -261,7 +265,11 @@ func (a *An) boundsTable(rule string) {
 		a.R.Check(good, rule, "site|"+okey, "reviewed undischarged bounds check: "+e.reason, pos, "the dominating test it relies on is gone: "+miss)
 	}
 	// inlined duplicates may legitimately vary in number; the per-key table above is the check
-	a.R.Floor(rule, 40)
+	if a.boundsFilter != nil {
+		a.R.Floor(rule, 8)
+	} else {
+		a.R.Floor(rule, 40)
+	}
 }
 
 // ---- allocation sizes ----------------------------------------------------------------------------
@@ -957,4 +965,31 @@ func stripSelectors(e string) string {
 	return selectorRe.ReplaceAllStringFunc(e, func(m string) string {
 		return "_"
 	})
+}
+
+// bceName: the name the compiler's listing uses for a function ("*T.m", "T.m", "f", "sexp.f").
+func (a *An) bceName(g *ssa.Function) string {
+	n := a.C.Name(g)
+	pre := ""
+	if strings.HasPrefix(n, "sexp.") {
+		pre, n = "sexp.", n[5:]
+	}
+	if strings.HasPrefix(n, "(") {
+		if i := strings.Index(n, ")"); i > 0 {
+			return pre + n[1:i] + n[i+1:]
+		}
+	}
+	return pre + n
+}
+
+// boundsTableFor: the bounds table restricted to the functions reachable from the given roots.
+func (a *An) boundsTableFor(rule string, roots ...string) {
+	set := map[string]bool{}
+	for _, g := range a.reachableFns(roots...) {
+		set[a.bceName(g)] = true
+		set[a.bceOwnerOf(g)] = true
+	}
+	a.boundsFilter = func(fn string) bool { return set[fn] }
+	a.boundsTable(rule)
+	a.boundsFilter = nil
 }
